@@ -72,6 +72,17 @@ package pokerface
 
 //@ pred STATUSOK(g) = g.gs.Status.CurrentWager >= 0 && g.gs.Status.PreviousRaiseSize >= 0
 
+// sum of the wagers on the table among seats 0..k-1 (C01: the round pot shown equals the wagers on the table)
+//@ fun SUMW(g *game, k int) int = ite(k <= 0, 0, SUMW(g, k - 1) + g.gs.Players[k - 1].Wager)
+//@ lemma SUMW_same(g *game, k int) for SUMW induction k :
+//@      (forall i :: 0 <= i && i < k ==> g.gs.Players[i] == old(g.gs.Players[i]) && g.gs.Players[i].Wager == old(g.gs.Players[i].Wager))
+//@      ==> SUMW(g, k) == old(SUMW(g, k))
+//@ lemma SUMW_one(g *game, k int) for SUMW induction k :
+//@      forall x :: 0 <= x && (forall i :: 0 <= i && i < k ==> g.gs.Players[i] == old(g.gs.Players[i])
+//@                     && (i != x ==> g.gs.Players[i].Wager == old(g.gs.Players[i].Wager)))
+//@      ==> SUMW(g, k) == old(SUMW(g, k)) + ite(x < k, g.gs.Players[x].Wager - old(g.gs.Players[x].Wager), 0)
+//@ lemma SUMW_zero(g *game, k int) for SUMW induction k : (forall i :: 0 <= i && i < k ==> g.gs.Players[i].Wager == 0) ==> SUMW(g, k) == 0
+
 // pay: the single place where chips move from a stack to the table.
 //@ func (*player).pay(p, chips, isWager) (err)
 //@   props C01 C11 C12 C13
@@ -99,6 +110,8 @@ package pokerface
 //@             ==> unchanged(PlayerState.Acted) && p.game.gs.Status.CurrentRaiser == old(p.game.gs.Status.CurrentRaiser)
 //@   ensures isWager && old(p.state.StackSize) <= chips
 //@             ==> (forall i :: 0 <= i && i < len(p.game.gs.Players) && i != p.idx ==> !p.game.gs.Players[i].Acted)
+//@   -- C01: paying keeps (round pot shown - wagers on the table) as it was
+//@   ensures [C01] p.game.gs.Status.CurrentRoundPot - SUMW(p.game, len(p.game.gs.Players)) == old(p.game.gs.Status.CurrentRoundPot - SUMW(p.game, len(p.game.gs.Players)))
 
 // OFFER: the offered-action table of property C11, read off the property statement
 // (implications only: an engine that offers more precise sets still satisfies it).
@@ -264,7 +277,10 @@ package pokerface
 //@    || g.gs.Status.CurrentEvent == "RoundClosed" || g.gs.Status.CurrentEvent == "GameClosed"
 
 // WAITINV: what holds whenever the engine waits (the invariant every public operation requires and re-establishes)
-//@ pred WAITINV(g) = ENGINE(g) && DECKOK(g) && TABLE(g) && WAITSET(g)
+// the round pot shown equals the wagers on the table (C01)
+//@ pred ROUNDPOT(g) = g.gs.Status.CurrentRoundPot == SUMW(g, len(g.gs.Players))
+
+//@ pred WAITINV(g) = ENGINE(g) && DECKOK(g) && TABLE(g) && WAITSET(g) && ROUNDPOT(g)
 //@    && (g.gs.Status.CurrentEvent == "RoundStarted" ==> TURN(g) && g.gs.Status.Round != "")
 //@    && (g.gs.Status.CurrentEvent != "RoundStarted" ==> ALLIDLE(g))
 //@    && (g.gs.Status.CurrentEvent == "AnteRequested" ==> g.gs.Status.Round == "" && ZEROBETS(g) && g.gs.Meta.Ante > 0)
@@ -290,7 +306,7 @@ package pokerface
 
 //@ func (*game).RequestPlayerAction(g) (err)
 //@   props C04 C05
-//@   requires ENGINE(g) && DECKOK(g) && TABLE(g) && 0 <= g.gs.Status.CurrentPlayer && OTHERSIDLE(g)
+//@   requires ENGINE(g) && DECKOK(g) && TABLE(g) && 0 <= g.gs.Status.CurrentPlayer && OTHERSIDLE(g) && ROUNDPOT(g)
 //@   requires g.gs.Status.CurrentEvent == "RoundStarted" && g.gs.Status.Round != ""
 //@   modifies @CHAIN
 //@   allocs elems(string), elems(Player), settlement.Result
@@ -323,7 +339,7 @@ package pokerface
 //@   case event == GameEvent_SettlementCompleted
 //@   case event == GameEvent_GameClosed
 //@   requires GameEvent_Started <= event && event <= GameEvent_GameClosed
-//@   requires ENGINE(g) && ROUNDVALID(g)
+//@   requires ENGINE(g) && ROUNDVALID(g) && ROUNDPOT(g)
 //@   requires event == GameEvent_Started ==> ZEROBETS(g) && g.gs.Status.Round == "" && DECKOK(g)
 //@   requires event == GameEvent_Initialized ==> ZEROBETS(g) && g.gs.Status.Round == "" && DECKOK(g)
 //@   requires event == GameEvent_Prepared ==> ZEROBETS(g) && g.gs.Status.Round == "" && DECKOK(g) && ALLIDLE(g)
@@ -377,7 +393,7 @@ package pokerface
 
 //@ func (*game).Resume(g) (err)
 //@   props C04 C05 C06
-//@   requires ENGINE(g) && DECKOK(g) && TABLE(g) && 0 <= g.gs.Status.CurrentPlayer && OTHERSIDLE(g)
+//@   requires ENGINE(g) && DECKOK(g) && TABLE(g) && 0 <= g.gs.Status.CurrentPlayer && OTHERSIDLE(g) && ROUNDPOT(g)
 //@   requires g.gs.Status.CurrentEvent == "RoundStarted" && g.gs.Status.Round != ""
 //@   modifies @CHAIN
 //@   allocs elems(string), elems(Player), settlement.Result
@@ -396,7 +412,7 @@ package pokerface
 
 //@ func (*game).StartRound(g) (err)
 //@   props C04 C05
-//@   requires IDLEPRE(g) && ROUNDVALID(g) && g.gs.Status.Round != "" && DECKOK(g) && g.gs.Status.CurrentEvent == "RoundPrepared"
+//@   requires IDLEPRE(g) && ROUNDVALID(g) && g.gs.Status.Round != "" && DECKOK(g) && g.gs.Status.CurrentEvent == "RoundPrepared" && ROUNDPOT(g)
 //@   modifies @CHAIN
 //@   allocs elems(string), elems(Player), settlement.Result
 //@   ensures err == nil && WAITINV(g)
@@ -663,6 +679,7 @@ package pokerface
 //@   ensures [C01] forall j :: 0 <= j && j < len(g.gs.Players) ==>
 //@             g.gs.Players[j].Pot == old(g.gs.Players[j].Pot) + old(g.gs.Players[j].Wager) && g.gs.Players[j].Wager == 0
 //@             && g.gs.Players[j].InitialStackSize == g.gs.Players[j].StackSize && len(g.gs.Players[j].AllowedActions) == 0
+//@   ensures [C01] SUMW(g, len(g.gs.Players)) == 0
 //@   loop 1 invariant forall j :: 0 <= j && j < len(g.gs.Players) && DIST(g.dealer.idx, j, len(g.gs.Players)) <= rangeindex ==>
 //@             g.gs.Players[j].Pot == old(g.gs.Players[j].Pot) + old(g.gs.Players[j].Wager) && g.gs.Players[j].Wager == 0
 //@             && g.gs.Players[j].InitialStackSize == g.gs.Players[j].StackSize && len(g.gs.Players[j].AllowedActions) == 0
@@ -725,6 +742,8 @@ package pokerface
 //@ func (*game).Start(g) (err)
 //@   props C06 C04 C14 C07
 //@   requires WFG0(g) && FRESHPLAYERS(g)
+//@   -- (implied by FRESHPLAYERS - no wagers on a fresh table - and stated because the solvers do not unfold the sum themselves)
+//@   requires SUMW(g, len(g.gs.Players)) == 0
 //@   requires g.gs.Status.Round == "" && g.gs.Status.CurrentDeckPosition == 0 && g.gs.Status.CurrentPlayer == 0 && g.gs.Status.CurrentWager == 0
 //@             && g.gs.Status.CurrentRoundPot == 0 && g.gs.Status.PreviousRaiseSize == 0
 //@   -- configuration validity (A8): amounts and the hole-card count are not negative
@@ -756,6 +775,7 @@ package pokerface
 //@   ensures !(p.game.gs.Meta.Ante == 0 || p.game.gs.Status.CurrentEvent != "AnteRequested" || old(p.state.Wager) > 0)
 //@             ==> err == nil && p.state.Wager == old(p.state.Wager) + min(p.game.gs.Meta.Ante, old(p.state.StackSize)) && CHIP(p.state)
 //@                 && p.game.gs.Status.CurrentRoundPot == old(p.game.gs.Status.CurrentRoundPot) + p.state.Wager - old(p.state.Wager)
+//@   ensures [C01] p.game.gs.Status.CurrentRoundPot - SUMW(p.game, len(p.game.gs.Players)) == old(p.game.gs.Status.CurrentRoundPot - SUMW(p.game, len(p.game.gs.Players)))
 
 //@ func (*game).PayAnte(g) (err)
 //@   props C13 C04 C06 C01 C07
@@ -775,6 +795,7 @@ package pokerface
 //@             g.gs.Players[j].Wager == 0 && CHIP(g.gs.Players[j]) && g.gs.Players[j].StackSize == old(g.gs.Players[j].StackSize)
 //@             && g.gs.Players[j].Pot == old(g.gs.Players[j].Pot)
 //@   loop 1 invariant g.gs.Status.CurrentWager == 0 && g.gs.Status.PreviousRaiseSize == 0
+//@   loop 1 invariant [C01] ROUNDPOT(g)
 
 //@ func (*player).PayBlinds(p) (err)
 //@   props C13 C01
@@ -789,6 +810,7 @@ package pokerface
 //@             && p.state.Wager == old(p.state.Wager) + min(DUE(p.game, p.state), old(p.state.StackSize))
 //@             && p.game.gs.Status.CurrentWager == max(old(p.game.gs.Status.CurrentWager), p.state.Wager)
 //@             && p.game.gs.Status.CurrentRoundPot == old(p.game.gs.Status.CurrentRoundPot) + p.state.Wager - old(p.state.Wager)
+//@   ensures [C01] p.game.gs.Status.CurrentRoundPot - SUMW(p.game, len(p.game.gs.Players)) == old(p.game.gs.Status.CurrentRoundPot - SUMW(p.game, len(p.game.gs.Players)))
 
 //@ func (*game).PayBlinds(g) (err)
 //@   props C13 C04 C06 C01 C12 C07
@@ -813,6 +835,7 @@ package pokerface
 //@             && g.gs.Players[j].Pot == old(g.gs.Players[j].Pot)
 //@   loop 1 invariant STATUSOK(g) && TABLE(g)
 //@             && (g.gs.Status.CurrentWager > 0 ==> (exists j :: 0 <= j && j < len(g.gs.Players) && g.gs.Players[j].Wager == g.gs.Status.CurrentWager))
+//@   loop 1 invariant [C01] ROUNDPOT(g)
 
 // ---------------------------------------------------------------------------
 // C07: a hand can be resumed from its serialized state
